@@ -72,6 +72,7 @@ class Unit:
     describe: str = ""
     expected_fail: list = field(default_factory=list)
     trusted: list = field(default_factory=list)  # unit-specific assumption lines
+    uses: list = field(default_factory=list)     # `use` lines of the source files the items rely on (e.g. "use std::mem;")
 
 
 _src_cache = {}
@@ -144,10 +145,27 @@ def annotate_fn(text, item: Fn, log, where):
         inserts.append((body_open + b, "\n" + inv.strip() + "\n"))
     n_loops = len(loops)
 
-    # ghost inserts
+    # ghost inserts.  anchor forms:
+    #   "@entry"                 start of the function body
+    #   "@loop:k:body"           start of the k-th loop's body
+    #   text, pos 'before'/'after'            exact offsets around the exact text
+    #   text, pos 'line-before'/'line-after'  text is a fragment; insert at the start of its line / after the end of its line
     for g in item.ghost:
         anchor, pos, gtext = g[0], g[1], g[2]
         nth = g[3] if len(g) > 3 else None
+        gt = gtext.strip()
+        if not (gt.startswith("proof {") or gt.startswith("assert(") or gt.startswith("assert ") or gt.startswith("let ghost ") or gt.startswith("let tracked ")):
+            raise ValueError(f"{where}: ghost insert must be proof/assert/let ghost: {gt[:40]!r}")
+        if anchor == "@entry":
+            inserts.append((body_open + 1, "\n" + gt + "\n"))
+            continue
+        ml = re.match(r"@loop:(\d+):body$", anchor)
+        if ml:
+            k = int(ml.group(1))
+            if k >= len(loops):
+                raise AnchorLost(f"{where}: loop #{k} not found for ghost anchor")
+            inserts.append((body_open + loops[k][1] + 1, "\n" + gt + "\n"))
+            continue
         occ = [mt.start() for mt in re.finditer(re.escape(anchor), text)]
         if nth is None:
             if len(occ) != 1:
@@ -157,10 +175,18 @@ def annotate_fn(text, item: Fn, log, where):
             if nth >= len(occ):
                 raise AnchorLost(f"{where}: ghost anchor {anchor!r} #{nth} missing")
             o = occ[nth]
-        gt = gtext.strip()
-        if not (gt.startswith("proof {") or gt.startswith("assert(") or gt.startswith("assert ") or gt.startswith("let ghost ") or gt.startswith("let tracked ")):
-            raise ValueError(f"{where}: ghost insert must be proof/assert/let ghost: {gt[:40]!r}")
-        inserts.append((o if pos == "before" else o + len(anchor), "\n" + gt + "\n"))
+        if pos == "before":
+            at = o
+        elif pos == "after":
+            at = o + len(anchor)
+        elif pos == "line-before":
+            at = text.rfind("\n", 0, o) + 1
+        elif pos == "line-after":
+            e = text.find("\n", o + len(anchor))
+            at = len(text) if e < 0 else e + 1
+        else:
+            raise ValueError(pos)
+        inserts.append((at, "\n" + gt + "\n"))
 
     # contract + result name
     sig = text[:body_open]
@@ -202,7 +228,7 @@ def generate(unit: Unit, root, rules_mod):
     """returns (text, meta) ; meta has per-item records and line map"""
     parts = ["// GENERATED by /verif/vlib/gen.py from /repo's working tree — do not edit\n",
              "#![allow(unused_imports, unused_variables, unused_mut, dead_code, unused_parens, unreachable_code, unused_assignments, non_camel_case_types, unused_braces)]\n",
-             "use vstd::prelude::*;\nverus! {\n"]
+             "use vstd::prelude::*;\n" + "".join(u + "\n" for u in unit.uses) + "verus! {\n"]
     meta = {"items": [], "rewrites": [], "rule_counts": {}, "linemap": []}
     ctx = rules_mod.Context()
 
